@@ -161,6 +161,8 @@ struct Actor {
 pub enum SimStop {
     Budget,
     Escaped(String),
+    /// the main actor (the scenario itself, which runs the client side of every exchange) panicked
+    MainPanicked(String),
 }
 
 pub type Listener = Rc<dyn Fn(SimStream, SocketAddr)>;
@@ -533,7 +535,13 @@ impl Sim {
             )));
         }
         match outcome {
-            Ok(()) => Ok(result.borrow_mut().take().expect("main finished")),
+            Ok(()) => match result.borrow_mut().take() {
+                Some(value) => Ok(value),
+                None => {
+                    let message = self.inner.panics.borrow().iter().rev().find(|p| p.starts_with("actor main#0")).cloned().unwrap_or_else(|| "main actor ended without a result".into());
+                    Err(SimStop::MainPanicked(message))
+                }
+            },
             Err(stop) => Err(stop),
         }
     }
